@@ -132,7 +132,11 @@ fn run_single(c: &SingleCase) -> CaseResult {
     // "every prior history": the bar may already be finished in another way when the terminator comes
     let mut refinish = false;
     if let Some(k1) = c.prior_finish {
-        if matches!(c.term, Term::Finish | Term::FinishWithMessage(_) | Term::FinishAndClear | Term::Abandon | Term::AbandonWithMessage(_) | Term::FinishUsingStyle(_)) {
+        // (also in front of an iterator that still has items: the program finishes or abandons the bar from
+        // the loop body, the end of the iterator must then leave it alone)
+        if matches!(c.term, Term::Finish | Term::FinishWithMessage(_) | Term::FinishAndClear | Term::Abandon | Term::AbandonWithMessage(_) | Term::FinishUsingStyle(_))
+            || matches!(c.term, Term::IterExhaust(_, n, _) | Term::IterExhaustBack(_, n, _) if n >= 1)
+        {
             let mut f1 = st.clone();
             finish_model(&mut f1, k1);
             if height_of(&f1.frame(), cols) <= rows {
@@ -165,9 +169,14 @@ fn run_single(c: &SingleCase) -> CaseResult {
         Term::AbandonWithMessage(_) => 4,
         Term::FinishUsingStyle(k) | Term::DropWith(k) | Term::IterExhaust(k, ..) | Term::IterExhaustBack(k, ..) => *k % 5,
     };
-    finish_model(&mut fin, k_of(&c.term));
+    let left_alone = refinish && matches!(c.term, Term::IterExhaust(..) | Term::IterExhaustBack(..));
+    if !left_alone {
+        finish_model(&mut fin, k_of(&c.term));
+    }
     match &c.term {
         Term::FinishWithMessage(m) | Term::AbandonWithMessage(m) => fin.msg = m.clone(),
+        // an adaptor over an already finished bar only counts
+        Term::IterExhaust(_, n, _) | Term::IterExhaustBack(_, n, _) if left_alone => fin.pos = st.pos.wrapping_add(*n as u64),
         Term::IterExhaust(_, n, _) | Term::IterExhaustBack(_, n, _) => {
             // the items are counted first
             if !matches!(k_of(&c.term), 0 | 1 | 2) || fin.len.is_none() {
@@ -274,9 +283,13 @@ fn run_single(c: &SingleCase) -> CaseResult {
         ensure!(h.position() == fin.pos, "final_position", "{ctx}: position() = {}, expected {}", h.position(), fin.pos);
         let want_msg = crate::model::expand_tabs(&fin.msg, fin.tab_width);
         ensure!(h.message() == want_msg, "final_message", "{ctx}: message() = {:?}, expected {:?}", h.message(), want_msg);
-        ensure!(vt.nflush() > flush_before, "no_final_frame", "{ctx}: no frame was painted by the call");
-        c01::check_screen(&vt.rows(), None, &log, &fin.frame(), cols, &ctx).map_err(|f| Fail::new("final_frame", f.msg))?;
-        if let Some(again) = &c.again {
+        if !left_alone {
+            ensure!(vt.nflush() > flush_before, "no_final_frame", "{ctx}: no frame was painted by the call");
+            c01::check_screen(&vt.rows(), None, &log, &fin.frame(), cols, &ctx).map_err(|f| Fail::new("final_frame", f.msg))?;
+        }
+        // (an adaptor that runs over an already finished bar completes nothing: its incs are ordinary,
+        // throttled position updates - only the getters are compared then)
+        if let Some(again) = c.again.as_ref().filter(|_| !left_alone) {
             // reset and complete a second time: the stored finish behaviour must still apply
             let stored = match &c.term {
                 Term::FinishUsingStyle(k) | Term::IterExhaust(k, ..) | Term::IterExhaustBack(k, ..) => *k % 5,
@@ -347,6 +360,7 @@ fn run_single(c: &SingleCase) -> CaseResult {
     }
     v.nontrivial = exhausted || refinish;
     v.label_if(refinish, "terminator_on_already_finished_bar");
+    v.label_if(left_alone, "iterator_ends_on_a_bar_finished_from_the_loop_body");
     v.label_if(exhausted, "limiter_exhausted_at_terminator");
     v.label_if(!exhausted, "limiter_not_exhausted");
     v.label(match c.term {
@@ -617,7 +631,7 @@ fn multi_strategy(tier: Tier) -> BoxedStrategy<MultiCase> {
         })
         .prop_map(|(cols, hz, step_ms, mut ops, final_drops)| {
             // make sure there is something to finish and that the limiter is exhausted early
-            let mut pre = vec![MOp::Add(BarSpec { two_lines: false, len: Some(9), on_finish: 0, msg: String::new() })];
+            let mut pre = vec![MOp::Add(BarSpec { two_lines: false, len: Some(9), on_finish: 0, msg: String::new(), key_nl: false })];
             if hz.is_some() {
                 pre.extend(std::iter::repeat(MOp::Tick(0)).take(22));
             }
@@ -645,7 +659,7 @@ pub fn property() -> Property {
                 cases: |t| t.pick(15_000, 1_000_000),
                 run: run_single,
                 signature: no_signature,
-                essential: &["limiter_exhausted_at_terminator", "limiter_not_exhausted", "explicit_call", "finish_using_style", "drop_last_handle", "iterator_exhausted", "iterator_exhausted_from_the_back", "iterator_exhausted_by_internal_iteration", "terminator_on_already_finished_bar", "clock_reset_after_finish", "clearing_variant", "second_completion_after_reset"],
+                essential: &["limiter_exhausted_at_terminator", "limiter_not_exhausted", "explicit_call", "finish_using_style", "drop_last_handle", "iterator_exhausted", "iterator_exhausted_from_the_back", "iterator_exhausted_by_internal_iteration", "terminator_on_already_finished_bar", "iterator_ends_on_a_bar_finished_from_the_loop_body", "clock_reset_after_finish", "clearing_variant", "second_completion_after_reset"],
                 workers: w,
                 decode: None,
             }),
